@@ -494,4 +494,4 @@ def rebinding_by_name(ctx: Ctx):
                (f"the names used for rebinding ({show(next(iter(names)))[:60] if names else '?'}) are not the list of the signature ({show(L)[:60]})"
                 if not same else f"{va} / {kwa} are also used directly, besides the by-name view: those values are taken in call order"),
                lhs=show(L)[:120], rhs=show(next(iter(names)))[:120] if names else "")
-    ctx.floor("signature_sites", 10)
+    ctx.floor("signature_sites", 6)  # 11 on the reviewed tree; refactorings legitimately turn some into plain functions
